@@ -324,7 +324,8 @@ def cmdIm (toks : List String) : String :=
           | none => none
         let res := st.msgs.map fun x => match x.phase with | .ok => "ok" | .failed => "err" | _ => "-"
         let bad := st.msgs.any fun x => x.rs == .corrupt
-        s!"{if bad then "corrupt" else "ok"} delivered={",".intercalate del} results={",".intercalate res}"
+        if (kv toks "show").getD "" = "delivered" then s!"{if bad then "corrupt" else "ok"} delivered={",".intercalate del}"
+        else s!"{if bad then "corrupt" else "ok"} delivered={",".intercalate del} results={",".intercalate res}"
   | _, _, _, _ => "bad-request"
 
 /-- all fault patterns (ENOBUFS or not) of length k, as numbers 0 .. 2^k-1 -/
